@@ -987,7 +987,7 @@ Proof.
     cbn [ap_nodes_from lookup_all MmrPaths.bpath_from].
     assert (Hd : dget D kn (bidx (sib (i / 2 ^ Z.of_nat s)) (Z.of_nat s)) = Some (br L' (sib (i / 2 ^ Z.of_nat s)) s)).
     { destruct (Nat.eq_dec s h) as [->|Hne].
-      - rewrite leaf_sib_h. exact K1.
+      - rewrite leaf_sib_h. unfold acc in K1. exact K1.
       - rewrite leaf_sib_above by lia. rewrite K2 by lia. rewrite oldpk_new by lia. reflexivity. }
     rewrite Hd. cbn [obind]. rewrite IH by lia. reflexivity. }
   apply Hgen; lia.
